@@ -257,7 +257,7 @@ def main(argv=None) -> int:
     ap.add_argument("--jobs", type=int, default=int(os.environ.get("VERIF_JOBS", "16")))
     ap.add_argument("--only", default=None, help="substring filter on cube names (debugging; evidence not written)")
     ap.add_argument("--budget", type=float, default=None,
-                    help="wall-clock budget in seconds for the cube phase (default: none for quick, $VERIF_BUDGET or 1200 for thorough)")
+                    help="wall-clock budget in seconds for the cube phase (default: none for quick, $VERIF_BUDGET or 900 for thorough)")
     a = ap.parse_args(argv)
     pid = a.prop.upper()
     if pid not in HARNESS:
@@ -288,7 +288,7 @@ def main(argv=None) -> int:
     if a.only:
         keep = [i for i, c in enumerate(spec.cubes) if a.only in c.name]
         spec.cubes[:] = [spec.cubes[i] for i in keep]
-    budget = a.budget if a.budget is not None else (float(os.environ.get("VERIF_BUDGET", "1200")) if a.tier == "thorough" else 0.0)
+    budget = a.budget if a.budget is not None else (float(os.environ.get("VERIF_BUDGET", "900")) if a.tier == "thorough" else 0.0)
     results = run_cubes(modname, a.tier, spec, seed, a.jobs, budget)
 
     known = load_known()
